@@ -908,7 +908,7 @@ Proof.
     by (unfold le32; cbn [app]; rewrite !len_cons; lia).
   rewrite read_u32_le32 by exact Hpos. cbn [obind].
   unfold le32 at 1 2. cbn [app nth_error of_option obind].
-  assert (Hland : (2 <? N.land vis 63) = false).
+  assert (Hland : (2 <? N.land vis 3) = false).
   { assert (Hc : vis = 0 \/ vis = 1 \/ vis = 2) by lia.
     destruct Hc as [-> | [-> | ->]]; reflexivity. }
   rewrite Hland, Htyp. cbn [negb].
@@ -1703,7 +1703,7 @@ Proof.
   intros data. unfold parse_sheet_metadata. destruct (len data <? 6) eqn:E; [split; discriminate|].
   destruct (read_u32_total data) as (pos & ->); [lia|]. cbn [obind].
   destruct (nth_error_total data 4) as (vis & ->); [lia|]. cbn [of_option obind].
-  destruct (2 <? N.land vis 63); [split; discriminate|].
+  destruct (2 <? N.land vis 3); [split; discriminate|].
   destruct (nth_error_total data 5) as (typ & ->); [lia|]. cbn [of_option obind].
   destruct (negb ((typ =? 0) || (typ =? 1) || (typ =? 2) || (typ =? 6))); [split; discriminate|].
   pose proof (no_panic_short_string (drop 6 data)) as [H1 H2].
